@@ -169,6 +169,73 @@ def check_estimate(fx, R, cq, cname, f, tag):
         return None
     psize, D = ps
     loc = fx.rel(f['loc'])
+    # ---- P7: a return in front of the accumulation loop, decided on the counts of the quantifier (6..500 correspondences) ----------------
+    import re
+    from .. import mini
+    top = f['body']['s'] if f.get('body') and f['body'].get('k') == 'Compound' else []
+
+    def sizes_norm(t):
+        t = deep_unwrap(t)
+        def go(x):
+            if isinstance(x, tuple) and len(x) == 2 and x[0] == '.size' and isinstance(x[1], str):
+                return 'N'
+            if isinstance(x, tuple):
+                return tuple(go(y_) for y_ in x)
+            return x
+        return go(t)
+    for x in walk(f['body']):
+        if not (isinstance(x, dict) and x.get('k') == 'If' and any(y.get('k') == 'Return' for y in walk(x.get('t')) if isinstance(y, dict))):
+            continue
+        rets = [y for y in walk(x.get('t')) if isinstance(y, dict) and y.get('k') == 'Return' and y.get('e') is not None]
+        const_ret = rets and all(not any(isinstance(z, dict) and z.get('k') == 'Ref' and z.get('rk') == 'param' for z in walk(y['e'])) for y in rets)
+        if not const_ret:
+            continue
+        hit = None
+        try:
+            env0 = {}
+            stp = mini.Step(sizes_norm)
+            for n_ in (6, 7, 8, 12, 100, 500):
+                env = {'N': n_, 'CARTESIAN_DIM': D, 'POINT_SIZE': psize, 'this.CARTESIAN_DIM': D}
+                for d_ in top:
+                    if d_ is x or any(y is x for y in walk(d_)):
+                        break
+                    if d_.get('k') == 'Decl' and all(v['t'].get('c') == 'int' for v in d_['vars']):
+                        stp.run(d_, env)
+                if stp.ev(sizes_norm(sx(x['c'])), env):
+                    hit = hit or n_
+        except (mini.Unsupported, mini.Returned):
+            hit = None
+            continue
+        if hit is not None:
+            R.violated('P7', inst + ':constant-result', 'when `%s` - true for %d correspondences with %d-D points, inside the quantifier (6..500 correspondences) - the estimator returns `%s`, which does not depend on the '
+                       'points: %d correspondences with normals that span the space determine the %d parameters, and the normal equations of that problem are not solved%s' % (
+                           pp(x['c'])[:90], hit, D, pp(rets[0]['e'])[:50], hit, 3 if D == 2 else 6, ptag), fx.rel(x['loc']), 'E-STEP')
+    # ---- P8: raw views over the point containers ---------------------------------------------------------------------------------------
+    for x in walk(f['body']):
+        if isinstance(x, dict) and x.get('k') in ('Construct', 'Decl'):
+            nodes = [x] if x.get('k') == 'Construct' else [v.get('init') for v in x['vars'] if v.get('init') is not None]
+            for c_ in nodes:
+                c_ = strip_casts(c_) if c_ is not None else None
+                if c_ is None or c_.get('k') != 'Construct':
+                    continue
+                ts = (c_.get('t') or {}).get('s', '')
+                mm = re.match(r'(?:const )?Eigen::Map<(?:const )?Eigen::Matrix<[a-z ]+, (-?\d+), (-?\d+)', ts)
+                if not mm or not c_.get('args'):
+                    continue
+                first = pp(c_['args'][0])
+                over_points = re.search(r'(sourcePoints|targetPoints|targetPointsNormals)\[0\]\.data\(\)|(sourcePoints|targetPoints|targetPointsNormals)\.data\(\)', first)
+                if not over_points:
+                    continue
+                rows = int(mm.group(1))
+                strided = 'Stride<' in ts
+                if strided:
+                    R.undecided('P8', inst + ':raw-view' + ptag, 'a strided Eigen::Map over %s: stride not evaluated' % first)
+                elif rows != psize:
+                    R.violated('P8', inst + ':raw-view', 'an Eigen::Map with %d rows per column is laid over the storage of `%s`, whose elements are %d scalars apart for this point type (%s): column n of the map '
+                               'is not point n - coordinates and the homogeneous w of neighbouring points are mixed into the residuals, so the homogeneous instantiations solve another problem than the Cartesian '
+                               'ones and than the index-based overload' % (rows, first[:60], psize, cname), fx.rel(c_.get('loc') or f['loc']), 'E-INT')
+                else:
+                    R.holds('P8', inst + ':raw-view' + ptag, 'map of %d rows over elements of %d scalars' % (rows, psize), fx.rel(c_.get('loc') or f['loc']), 'E-INT')
     try:
         H, states, loops = read_estimate(fx, f, psize, 3 if D == 2 else 6)
     except sym.Unsupported as u:
